@@ -197,48 +197,53 @@ def _check_main(ctx, rep: Report):
         raise AnalysisError(f"C11.SKIP: {nskip} producers found (floor 2)")
 
     # ---- MAP / TRANS
-    rep.rules["C11.MAP"] = "structure of invalidate_attrs (union with '*', per-dependant handler, delattr dispatch, propagation through value-less dependants)"
+    rep.rules["C11.MAP"] = "invalidate_attrs interpreted (delattr may fail): dependants of attr and of '*' are each deleted through delattr; a failing delete neither escapes nor stops the others; it propagates to the dependant's own dependants"
     fi = ctx.p.find_function("invalidate_attrs")
-    fn = fi.node
-    site = f"{fi.module.relpath}:{fn.lineno}"
-    loops = [n for n in walk_own(fn) if isinstance(n, ast.For)]
+    site = f"{fi.module.relpath}:{fi.node.lineno}"
+
+    def conf_map(cfg):
+        cfg.user_may_raise = False
+        cfg.loop_unroll = 2
+        cfg.delattr_may_raise = True
+    params = [a.arg for a in fi.node.args.args]
+    if params[:3] != ["obj", "attr", "invalidation_map"]:
+        raise AnalysisError(f"C11.MAP: unexpected signature of invalidate_attrs {params}")
+    it_, outs_ = run_function(ctx.p, ctx.H, fi, [Sym(("obj",), {RECV}, tags={"nonsentinel"}), Sym(("attr",), {IMM}, tags={"nonsentinel"}),
+                                             Sym(("imap",), {CLS}, tags={"nonsentinel"})], {}, configure=conf_map)
+    rep.functions |= set(it_.functions_entered)
+    rep.evaluations += len(outs_)
     probs = []
-    if not loops:
-        probs.append(("noloop", "no loop over the dependants"))
+    names = set()
+    per_item = trans = False
+    for o in outs_:
+        evs = [e for e in o.state.trace if e[0] in ("W", "DELFAIL", "INV")]
+        if o.kind == "exc" and getattr(o.value, "cls", "") == "AttributeError":
+            probs.append(("nohandler", "a dependant with nothing to delete aborts the mutation with AttributeError (or stops the invalidation of the remaining dependants)"))
+        for i, e in enumerate(evs):
+            if e[0] == "W" and e[1] == "delattr()" and e[2] == "obj":
+                names.add(str(e[4]))
+            if e[0] == "W" and e[2] == "obj" and e[1] not in ("delattr()",):
+                probs.append(("nodelattr", f"a dependant is changed through `{e[1]}` instead of delattr(obj, name) (defaults are not re-installed / deletion does not propagate)"))
+            if e[0] == "DELFAIL":
+                names.add(str(e[2]))
+                item = str(e[2]).strip("{}")
+                later = evs[i + 1:]
+                if any(x[0] in ("W", "DELFAIL") and str(x[4] if x[0] == "W" else x[2]).strip("{}") != item for x in later):
+                    per_item = True
+                if any(x[0] == "INV" and str(x[2]) == item for x in later):
+                    trans = True
+    if not names:
+        probs.append(("nodelattr", "dependants are not deleted through delattr(obj, name)"))
     else:
-        loop = loops[0]
-        it = ast.unparse(loop.iter)
-        src = ast.unparse(fn)
-        if "get(attr" not in it.replace(" ", "") and "[attr]" not in it:
-            if "get(attr" not in src.replace(" ", ""):
-                probs.append(("noattr", "dependants of the mutated attribute are not looked up"))
-        if "'*'" not in it and '"*"' not in it and "'*'" not in src:
+        if not any("[attr]" in n_ or "attr" in n_.replace("imap", "") for n_ in names):
+            probs.append(("noattr", "dependants of the mutated attribute are not looked up"))
+        if not any("'*'" in n_ for n_ in names):
             probs.append(("nostar", "dependants registered for '*' are not invalidated"))
-        trys = [n for n in ast.walk(loop) if isinstance(n, ast.Try)]
-        outer_trys = [n for n in walk_own(fn) if isinstance(n, ast.Try) and any(x is loop for x in ast.walk(n))]
-        dels = [n for n in ast.walk(loop) if isinstance(n, ast.Call) and ast.unparse(n.func) == "delattr"]
-        if not dels:
-            probs.append(("nodelattr", "dependants are not deleted through delattr(obj, name) (defaults are not re-installed / deletion does not propagate)"))
-        for d in dels:
-            if len(d.args) != 2 or d.keywords:
-                probs.append(("delattr-args", "delattr called with unexpected arguments"))
-        handlers = [h for t in trys for h in t.handlers if h.type is not None and "AttributeError" in ast.unparse(h.type)]
-        if dels and not handlers:
-            if outer_trys:
-                probs.append(("handler-outside", "AttributeError is handled around the whole loop: the first value-less dependant stops the invalidation of the others"))
-            else:
-                probs.append(("nohandler", "a dependant with nothing to delete aborts the mutation with AttributeError"))
-        # C11.TRANS
-        trans_ok = False
-        for h in handlers:
-            for n in ast.walk(h):
-                if isinstance(n, ast.Call) and ast.unparse(n.func).endswith("invalidate_attrs"):
-                    args = [ast.unparse(a) for a in n.args] + [ast.unparse(k.value) for k in n.keywords]
-                    if any(a == ast.unparse(loop.target) for a in args):
-                        trans_ok = True
-        if handlers and not trans_ok:
+        if not per_item and not any(p_[0] == "nohandler" for p_ in probs):
+            probs.append(("handler-outside", "after a dependant with nothing to delete, no further dependant is invalidated on any path"))
+        if not trans:
             probs.append(("TRANS", "a dependant that holds no value (uncached property, unset attribute) ends the chain: attributes depending on it keep stale values"))
-        skips = [n for n in ast.walk(loop) if isinstance(n, ast.Continue)]
+    probs = sorted(set(probs))
     rep.oblige("C11.MAP", "invalidate_attrs", not probs, "; ".join(p[1] for p in probs))
     for code, text in probs:
         rule = "C11.TRANS" if code == "TRANS" else "C11.MAP"
